@@ -30,13 +30,14 @@ class Undecided(CheckerError):
 
 
 class SummaryExit:
-    def __init__(self, dh, last, reach, assume, escapes, scopes=0, endbound=False):
+    def __init__(self, dh, last, reach, assume, escapes, scopes=0, endbound=False, defs0=False):
         self.dh, self.last, self.reach, self.assume, self.escapes, self.scopes = dh, last, reach, assume, escapes, scopes
         self.endbound = endbound
+        self.defs0 = defs0
 
     def key(self):
         return (self.dh.key() if self.dh is not None else None, self.last, self.reach,
-                self.scopes, self.endbound)
+                self.scopes, self.endbound, self.defs0)
 
 
 class CSA:
@@ -142,6 +143,10 @@ class CSA:
         if k == 'p_tuple':
             if not pat['elems'] and val[0] in ('unit', 'unk'):
                 return [('yes', st, env)]          # the pattern `()`
+            if val[0] in ('ast', 'unk'):
+                # a tuple the analysis knows only by name (`stmts.split_last()` gave `(last, init)`): its parts are named after it
+                base = val[1] if val[0] == 'ast' else 'tuple'
+                val = ('tuple', [(val[0], '%s.%d' % (base, i)) for i in range(len(pat['elems']))])
             if val[0] != 'tuple' or len(val[1]) != len(pat['elems']):
                 raise Undecided('CSA: tuple pattern against %s' % (val,))
             results = [('yes', st, env)]
@@ -884,6 +889,10 @@ class CSA:
         args = e['args']
         if path_of(recv) == ['self']:
             return self.call_self(meth, args, st, env, e)
+        # a name bound to the compiler itself (`|c| c.compile_statement(s)` in a closure a helper calls with `f(self)`)
+        pr = path_of(recv)
+        if pr and len(pr) == 1 and env.get(pr[0]) == ('self',):
+            return self.call_self(meth, args, st, env, e)
 
         def cont(s, en, vals):
             r = vals[0]
@@ -1111,10 +1120,14 @@ class CSA:
             s.facts[('symhow', sid)] = 'define'
             s.facts[('symctx', sid)] = s.ctx_depth
             out_ty = getattr(self, 'symtab_define_output', '')
+            was_defs0 = s.defs0
+            if s.scopes <= 0 and not s.frames:
+                s.defs0 = True
             if 'Result<' in out_ty or 'Option<' in out_ty:
                 # the table can refuse a definition (it is full): nothing was defined on that path
                 s2 = s.clone()
                 s2.dirty = set(s.dirty)
+                s2.defs0 = was_defs0
                 s2.trace.append('define fails')
                 if 'Result<' in out_ty:
                     return [(s, en, 'v', ('res', 'ok', ('sym', sid))), (s2, en, 'v', ('res', 'err', ('error', 'table full')))]
@@ -1221,7 +1234,7 @@ class CSA:
             if meth not in self.methods:
                 raise Undecided('CSA: self.%s() is not a method of the compiler' % meth)
             if meth in self.recursive:
-                return self.apply_summary(meth, a, s, en)
+                return self._block_scoped(meth, a, s, self.apply_summary(meth, a, s, en))
             recv = [i for i in self.methods[meth]['inputs'] if i.get('self')]
             if recv and recv[0].get('ref') and not recv[0].get('mut'):
                 # a `&self` method cannot emit, patch or declare: when its body is beyond the interpreter (a hand-written scan
@@ -1246,8 +1259,26 @@ class CSA:
                         s2 = s.clone()
                         return [(s, en, 'v', ('bool', True)), (s2, en, 'v', ('bool', False))]
                     return V(('unk', meth))
-            return self.inline(meth, a, s, en)
+            pre_ = s.defs0
+            return self._block_scoped(meth, a, None, self.inline(meth, a, s, en), pre_)
         return self.seq(args, st, env, cont)
+
+    BLOCK_FIELDS = ('If.consequence', 'If.alternative/Some', 'While.body', 'Block.0')
+
+    def _block_scoped(self, meth, a, s0, outs, pre=None):
+        """a call that compiles a BLOCK of the syntax tree (a branch, a loop body, a bare block) may not leave a declaration in the
+        scope that was current before it: the block's own scope has to be around every declaration made by its statements"""
+        if not (a and a[0][0] == 'ast' and isinstance(a[0][1], str) and a[0][1].endswith(self.BLOCK_FIELDS)):
+            return outs
+        if pre is None:
+            pre = s0.defs0 if s0 is not None else False
+        for r in outs:
+            s1 = r[0]
+            if getattr(s1, 'defs0', False) and not pre and r[2] == 'v' and not (isinstance(r[3], tuple) and r[3][:2] == ('res', 'err')):
+                s1.viol('R09.1', 'a declaration made by a statement of the block `%s` is entered in the scope around the block: it stays visible (and keeps '
+                        'its slot) after the block has ended' % a[0][1].split('/')[-1])
+                s1.defs0 = pre
+        return outs
 
     def inline(self, meth, a, s, en):
         f = self.methods[meth]
@@ -1301,6 +1332,8 @@ class CSA:
                 s1.h = base_h.plus(xdh)
             elif not x.reach:
                 s1.reach = False
+            if getattr(x, 'defs0', False) and s1.scopes <= 0 and not s1.frames:
+                s1.defs0 = True
             if x.last is not None:
                 s1.last = x.last
                 s1.emitted = True
@@ -1539,7 +1572,7 @@ class CSA:
                     if st.emitted:
                         last = st.last if st.last in self.tested_ops or st.last == 'None' else 'other'
                     x = SummaryExit(st.h if st.reach else None, last, st.reach, dict(st.assume), [], max(-2, min(2, st.scopes)),
-                                    bool(st.bound) or st.pos in st.labels)
+                                    bool(st.bound) or st.pos in st.labels, bool(getattr(st, 'defs0', False)))
                     for k, h, f, r, asm in st.escapes:
                         if not r:
                             continue
